@@ -213,9 +213,19 @@ def judgeTree (parent : Str) (probes : List Str) (tree rp : String) (res recs : 
     let kf := if fails.isEmpty || !allExplained then none else fails.head?.bind (explained l)
     let tag := s!"ops{opCount l}/depth{depth l}" ++ (if hasGt l then "/gt" else "") ++
       (if hasDoubleCompl l then "/cc" else "") ++ (if text.length > 58 then "/wrapped" else "")
-    let corr := rp == mp && res == me && recs == mr
+    let exact := rp == mp && res == me && recs == mr
+    -- A repaired writer: the tree is in the known-finding class (it has a 3′-partial span), the property HOLDS on the
+    -- implementation's reply (no failing clause at all), and the reply differs from the model — which mirrors the
+    -- recorded defect — only in the written / re-read location TEXTS (every sequence and the parsed structure agree).
+    -- That is the defect gone, not a disagreement: counted as drift (class suffix /kf-repaired), corr stays `same`.
+    let mask := fun (r : String) => (r.splitOn "|").dropLast
+    let repaired := inDom && hasGt l && fails.isEmpty && !exact &&
+      mask rp == mask mp && res.map mask == me.map mask && recs.map mask == mr.map mask
+    let corr := exact || repaired
+    let tag := if repaired then tag ++ "/kf-repaired" else tag
     { inDom, corr, fails, kf, tag,
-      detail := if fails.isEmpty && corr then "" else
+      detail := if repaired then s!"written texts differ from the model although the property holds (defect C02-writer-3prime repaired?): tree={tree} model: {mp} {me} {mr} impl: {rp} {res} {recs}" else
+        if fails.isEmpty && corr then "" else
         s!"tree={tree} text={S text} fails={fails} model: {mp} {me} {mr} impl: {rp} {res} {recs} denote={S (denote l parent)}" }
 
 def groupsOf (k : Nat) : List String → List (List String)
@@ -286,8 +296,10 @@ def judgeLoc (parent : String) (trees out : List String) : Verdict :=
     | none, some v => { corr, judge := some false, cls := pre ++ "kf:" ++ v.kf.getD "" ++ "/" ++ "".intercalate v.fails ++ "/" ++ size ++ v.tag,
                         detail := (diff.map (·.detail)).getD v.detail }
     | none, none =>
+      let rep := vs.find? fun v => v.tag.endsWith "/kf-repaired"
       { corr, judge := if dom.isEmpty then none else some true,
-        cls := pre ++ size ++ (vs.head?.map (·.tag)).getD "empty", detail := (diff.map (·.detail)).getD "" }
+        cls := pre ++ size ++ ((rep.map (·.tag)).getD ((vs.head?.map (·.tag)).getD "empty")),
+        detail := (diff.map (·.detail)).getD ((rep.map (·.detail)).getD "") }
   | _ => { corr := false, judge := some false, cls := "bad-reply", detail := lineOf out }
 
 def judge (f out : List String) : Verdict :=
